@@ -7,6 +7,7 @@ import (
 	"fmt"
 	"io"
 	"math/rand"
+	"net/http"
 	"os"
 	"os/exec"
 	"path/filepath"
@@ -258,6 +259,9 @@ func runFetch(c *harness.Ctx) harness.Result {
 	for i := 0; i < n; i++ {
 		name := fmt.Sprintf("src%03d", i)
 		p := c10.GenProfile(rand.New(rand.NewSource(int64(i % 7))))
+		for k := int64(1); p.SampleType[0].Type != "samples"; k++ { // all sources share their sample types
+			p = c10.GenProfile(rand.New(rand.NewSource(int64(i%7) + 100*k)))
+		}
 		for _, m := range p.Mapping {
 			m.BuildID = "ab" + fmt.Sprint(i%3)
 		}
@@ -284,6 +288,32 @@ func runFetch(c *harness.Ctx) harness.Result {
 	if err != nil {
 		return harness.Violation("parallel fetch of %d sources failed: %v", n, err)
 	}
+	// the same profiles served over HTTP to pprof's own fetcher, nothing gated: up to 128 fetches
+	// really run at the same time, each with its own seconds= parameter (and therefore timeout)
+	{
+		var urls []string
+		bodies := map[string][]byte{}
+		for i, name := range srcs {
+			var buf bytes.Buffer
+			profs[name].Write(&buf)
+			host := fmt.Sprintf("%s.test", name)
+			bodies[host] = buf.Bytes()
+			urls = append(urls, fmt.Sprintf("http://%s/pprof/heap?seconds=%d", host, 1+i%7))
+		}
+		s := &drv.Session{Flags: &drv.Flags{Bools: map[string]bool{"top": true, "functions": true, "flat": true}, Strs: map[string]string{"output": "out", "symbolize": "none"}, Args: urls}, RoundTr: hostTransport(bodies), Obj: &binutils.Binutils{}}
+		rr := s.Run()
+		c.Stat("free_running_http_fetches", int64(n))
+		if rr.Panic != "" || rr.Err != nil {
+			return harness.Violation("parallel HTTP fetch of %d sources failed: %v %s %v", n, rr.Err, rr.Panic, s.UI.Errs)
+		}
+		out := ""
+		if bf := s.Writer.Files["out"]; bf != nil {
+			out = bf.String()
+		}
+		if out != a {
+			return harness.Violation("%d sources fetched over HTTP in parallel give another report than the same profiles fetched in a forced order\n--- parallel\n%s\n--- forced order\n%s", n, harness.Trunc(out, 1200), harness.Trunc(a, 1200))
+		}
+	}
 	b, err := run(c.Rng.Int63())
 	c.Stat("fetch_sessions", 2)
 	c.Stat("fetches", int64(2*n))
@@ -292,6 +322,17 @@ func runFetch(c *harness.Ctx) harness.Result {
 		res.Verdict, res.Detail = harness.Violated, fmt.Sprintf("parallel fetch of %d sources: results differ between two completion orders (err=%v)", n, err)
 	}
 	return res
+}
+
+type hostTransport map[string][]byte
+
+func (t hostTransport) RoundTrip(req *http.Request) (*http.Response, error) {
+	b, ok := t[req.URL.Host]
+	if !ok {
+		return nil, fmt.Errorf("no route to %s", req.URL)
+	}
+	runtime.Gosched()
+	return &http.Response{StatusCode: 200, Status: "200 OK", Header: http.Header{}, Body: io.NopCloser(bytes.NewReader(b)), Request: req}, nil
 }
 
 // 5. temporary files: many goroutines and several processes create files in one directory
@@ -701,7 +742,7 @@ func init() {
 		ID:          "C20",
 		Level:       "exploration",
 		Race:        true,
-		Rule:        "all workers are built with -race (GORACE halt_on_error=0, reports collected from the log files and de-duplicated by the functions on top of both stacks; any report is a violation). Workloads, each compared with its sequential twin: codec (8-32 goroutines x Write / WriteUncompressed / Copy / String on one profile, plus a merged profile and its compaction serialized at the same time; bytes must equal the sequential ones), web (4-11 clients mixing /top /peek /flamegraph /source /disasm /download / with /saveconfig and /deleteconfig against one server while 2 writers flip an option through SetVariableDefault; every response must equal a sequential response for one of the option values written, Config menu excluded), fetch (2-300 sources fetched in parallel through the gated fetcher with a shared Binutils object tool; two completion orders must agree), temp (32 goroutines x 4 and 6 processes x 12 temporary files in one directory: names distinct, contents intact), tools (6-11 goroutines x 8 SourceLine calls on one object file behind an interposed symbolizer that echoes its question, while SetTools / SetFastSymbolization / Open race), firstweb (a fresh child process whose first 4-11 web requests are released together by a barrier, each compared with the same request repeated alone), tools-addr2line (4-9 goroutines x 8 SourceLine calls through one interposed GNU-addr2line process that answers one of the lookups with a diagnostic line: every call returns an answer that pairs with its question, nothing, or an error). setters (SetFastSymbolization issued while SetTools probes an interposed slow objdump: the final state must be the one of either serial order). A case that does not finish within 2 min in 3 of 3 fresh worker processes is a deadlock (violation, goroutine dump attached). Every workload records call/return stamps from one clock and reports the number of really overlapping operation pairs. non-trivial = every case; distinct = case",
+		Rule:        "all workers are built with -race (GORACE halt_on_error=0, reports collected from the log files and de-duplicated by the functions on top of both stacks; any report is a violation). Workloads, each compared with its sequential twin: codec (8-32 goroutines x Write / WriteUncompressed / Copy / String on one profile, plus a merged profile and its compaction serialized at the same time; bytes must equal the sequential ones), web (4-11 clients mixing /top /peek /flamegraph /source /disasm /download / with /saveconfig and /deleteconfig against one server while 2 writers flip an option through SetVariableDefault; every response must equal a sequential response for one of the option values written, Config menu excluded), fetch (2-300 sources fetched in parallel through the gated fetcher with a shared Binutils object tool; two completion orders must agree, and the same profiles served over HTTP to pprof's own fetcher, ungated, with per-source seconds= parameters must give the same report), temp (32 goroutines x 4 and 6 processes x 12 temporary files in one directory: names distinct, contents intact), tools (6-11 goroutines x 8 SourceLine calls on one object file behind an interposed symbolizer that echoes its question, while SetTools / SetFastSymbolization / Open race), firstweb (a fresh child process whose first 4-11 web requests are released together by a barrier, each compared with the same request repeated alone), tools-addr2line (4-9 goroutines x 8 SourceLine calls through one interposed GNU-addr2line process that answers one of the lookups with a diagnostic line: every call returns an answer that pairs with its question, nothing, or an error). setters (SetFastSymbolization issued while SetTools probes an interposed slow objdump: the final state must be the one of either serial order). A case that does not finish within 2 min in 3 of 3 fresh worker processes is a deadlock (violation, goroutine dump attached). Every workload records call/return stamps from one clock and reports the number of really overlapping operation pairs. non-trivial = every case; distinct = case",
 		Assumptions: []string{"the race detector only sees accesses that happen in these runs", "sharing one fileNM object between goroutines is not something pprof does and is not exercised"},
 		Parts: []harness.Part{
 			{Name: "codec", Quick: 60, Thor: 3000, Run: runCodec},
